@@ -1131,6 +1131,15 @@ impl<'s> Semantics<'s> {
             // get started
             let dst = self.operand_load(block, &detail.operands[0])?;
 
+            // the target is read before the return address is pushed (call rsp)
+            let dst = if dst.scalars().is_empty() {
+                dst
+            } else {
+                let temp = self.temp(0, dst.bits());
+                block.assign(temp.clone(), dst);
+                temp.into()
+            };
+
             let ret_addr = self.instruction().address + self.instruction().size as u64;
 
             self.mode()
